@@ -107,7 +107,7 @@ impl RangeSet {
 //@ loop-start 0
             let ghost mb = self.0@;
             let ghost xb = x;
-//@ after x.end = cmp::max(next_end, x.end);
+//@ after x.end =
             proof {
                 let m1 = self.0@;
                 assert(forall|s: u64| #[trigger] m1.contains_key(s) ==> mb.contains_key(s) && m1[s] == mb[s]);
